@@ -371,8 +371,8 @@ class Ref:
             n = yatiml.Node(node)
             try:
                 c._yatiml_savorize(n)
-            except yatiml.SeasoningError:
-                raise Reject('savorize raised SeasoningError')
+            except Exception:   # noqa  (any exception of the hook rejects)
+                raise Reject('savorize raised')
             node = n.yaml_node
         return node
 
